@@ -264,6 +264,6 @@ func runRP(c RPCase, rec *h.Rec) error {
 	return nil
 }
 
-var propRP = h.NewProp("TestPropRingPacking", h.Budget{Quick: 400, Thorough: 6000}, genRPCase, runRP)
+var propRP = h.NewProp("TestPropRingPacking", h.Budget{Quick: 250, Thorough: 4000}, genRPCase, runRP)
 
 func TestPropRingPacking(t *testing.T) { propRP.Check(t) }
